@@ -119,6 +119,19 @@ pub fn gen_faults(rng: &mut Rng, n: usize, span_ms: u64, max_faults: u64, allow_
     v
 }
 
+/// Process stalls (an independent stream of the seed, so plans generated before this fault kind
+/// existed are unchanged): a node's tasks are not polled for a while.
+pub fn gen_freeze_faults(seed: u64, n: usize, span_ms: u64) -> Vec<Value> {
+    let mut rng = Rng::fork(seed, "freeze-faults");
+    let mut v = Vec::new();
+    if rng.chance(1, 4) {
+        for _ in 0..rng.range(1, 2) {
+            v.push(json!({"at_ms": rng.below(span_ms.max(1)), "kind": "freeze", "node": 1 + rng.below(n as u64), "heal_after_ms": *rng.pick(&[50u64, 500, 3000, 12_000, 40_000])}));
+        }
+    }
+    v
+}
+
 fn byte_offset(rng: &mut Rng) -> u64 {
     // handshake phases are within the first ~600 bytes; later offsets hit application traffic
     match rng.below(4) {
@@ -210,6 +223,9 @@ pub fn spawn_fault_driver(handle: &Handle, net: &SimNet, faults: &[Value], on_ki
                     }
                     net.host_down(node_ip(node), vanish);
                     h.kill_node(node);
+                }
+                "freeze" => {
+                    h.freeze_node(f["node"].as_u64().unwrap_or(1) as usize, Duration::from_millis(f["heal_after_ms"].as_u64().unwrap_or(1000)));
                 }
                 "clock_jump" => {
                     h.fault("clock_jump");
